@@ -16,27 +16,27 @@ Open Scope Z_scope.
 Inductive ainstr :=
 | ALock | AUnlock
 | ACheckReq          (* CanCreate(): cur < max, else the call is refused (the thread stops) *)
-| AIncReq            (* Increase(); the request is admitted *)
+| AIncReq            (* Increase(); the request is accepted *)
 | ATest              (* totalClientCount < max, else Overflow (unlock and stop) *)
 | ATestInc           (* the same test and totalClientCount + 1 in one critical section *)
 | ADial              (* the connection is dialled: it exists *)
 | AIncConn.          (* totalClientCount + 1 after the dial *)
 
-Record ashared := mkASh { ad_mu : bool; ad_cur : Z; ad_admitted : Z; ad_total : Z; ad_conns : Z }.
+Record ashared := mkASh { ad_mu : bool; ad_cur : Z; ad_entered : Z; ad_total : Z; ad_conns : Z }.
 Definition ad_max : Z := 1.
 
 Definition adstep (t : list ainstr) (s : ashared) : list ainstr * ashared :=
   match t with
   | [] => (t, s)
-  | ALock :: r => if ad_mu s then (t, s) else (r, mkASh true (ad_cur s) (ad_admitted s) (ad_total s) (ad_conns s))
-  | AUnlock :: r => (r, mkASh false (ad_cur s) (ad_admitted s) (ad_total s) (ad_conns s))
+  | ALock :: r => if ad_mu s then (t, s) else (r, mkASh true (ad_cur s) (ad_entered s) (ad_total s) (ad_conns s))
+  | AUnlock :: r => (r, mkASh false (ad_cur s) (ad_entered s) (ad_total s) (ad_conns s))
   | ACheckReq :: r => if ad_cur s <? ad_max then (r, s) else ([], s)
-  | AIncReq :: r => (r, mkASh (ad_mu s) (ad_cur s + 1) (ad_admitted s + 1) (ad_total s) (ad_conns s))
+  | AIncReq :: r => (r, mkASh (ad_mu s) (ad_cur s + 1) (ad_entered s + 1) (ad_total s) (ad_conns s))
   | ATest :: r => if ad_total s <? ad_max then (r, s) else ([AUnlock], s)
-  | ATestInc :: r => if ad_total s <? ad_max then (r, mkASh (ad_mu s) (ad_cur s) (ad_admitted s) (ad_total s + 1) (ad_conns s))
+  | ATestInc :: r => if ad_total s <? ad_max then (r, mkASh (ad_mu s) (ad_cur s) (ad_entered s) (ad_total s + 1) (ad_conns s))
                      else ([AUnlock], s)
-  | ADial :: r => (r, mkASh (ad_mu s) (ad_cur s) (ad_admitted s) (ad_total s) (ad_conns s + 1))
-  | AIncConn :: r => (r, mkASh (ad_mu s) (ad_cur s) (ad_admitted s) (ad_total s + 1) (ad_conns s))
+  | ADial :: r => (r, mkASh (ad_mu s) (ad_cur s) (ad_entered s) (ad_total s) (ad_conns s + 1))
+  | AIncConn :: r => (r, mkASh (ad_mu s) (ad_cur s) (ad_entered s) (ad_total s + 1) (ad_conns s))
   end.
 
 Definition adcfg := (list (list ainstr) * ashared)%type.
@@ -48,8 +48,8 @@ Definition req_cfg : adcfg := ([req_prog; req_prog; req_prog], ad0).
 Definition conn_cfg (count_locked : bool) : adcfg := ([conn_prog count_locked; conn_prog count_locked; conn_prog count_locked], ad0).
 Definition adrun (sched : list nat) (c : adcfg) : adcfg := Interleave.run adstep sched c.
 
-(* the limits hold: never more admitted requests / open connections than the limit *)
-Definition admit_good (c : adcfg) : bool := (ad_admitted (snd c) <=? ad_max) && (ad_conns (snd c) <=? ad_max).
+(* the limits hold: never more accepted requests / open connections than the limit *)
+Definition entry_good (c : adcfg) : bool := (ad_entered (snd c) <=? ad_max) && (ad_conns (snd c) <=? ad_max).
 
 (* ---- the finite reachable set, computed ---------------------------------------------------------------- *)
 Definition ainstr_eqb (a b : ainstr) : bool :=
@@ -59,7 +59,7 @@ Definition ainstr_eqb (a b : ainstr) : bool :=
   | _, _ => false
   end.
 Definition ash_eqb (a b : ashared) : bool :=
-  Bool.eqb (ad_mu a) (ad_mu b) && (ad_cur a =? ad_cur b) && (ad_admitted a =? ad_admitted b) && (ad_total a =? ad_total b) && (ad_conns a =? ad_conns b).
+  Bool.eqb (ad_mu a) (ad_mu b) && (ad_cur a =? ad_cur b) && (ad_entered a =? ad_entered b) && (ad_total a =? ad_total b) && (ad_conns a =? ad_conns b).
 Definition adcfg_eqb (a b : adcfg) : bool := list_eqb (list_eqb ainstr_eqb) (fst a) (fst b) && ash_eqb (snd a) (snd b).
 Definition admem (c : adcfg) (l : list adcfg) : bool := existsb (adcfg_eqb c) l.
 Definition adsucc (c : adcfg) : list adcfg := map (sched_step adstep c) [0; 1; 2]%nat.
